@@ -84,25 +84,44 @@ theorem cubeQuadsNormalCode_eq {v : Nat} (hv : v < 24) :
   interval_cases v <;>
     simp [cubeQuadsNormalCode, cubeQuadsNormal, rotZ, rotL, V3.Up, V3.New, c32, s32, c12, s12]
 
-theorem cylinderPosCode_eq (r H : ℝ) (S v : Nat) : cylinderPosCode r H S v = cylinderPos r H S v := by
+theorem cylinderPosCode_eq (r H : ℝ) (S : Nat) {v : Nat} (hv : v < cylinderNV S false false) :
+    cylinderPosCode r H S v = cylinderPos r H S v := by
+  simp only [cylinderNV, cylinderSideNV, circleNV, Bool.false_eq_true, if_false] at hv
   unfold cylinderPosCode
   split_ifs with h1 h2
   · rfl
-  · have a1 : ¬ v < 2 * S + 2 := by omega
+  · -- top cap: circle translated by (0, H/2, 0)
+    by_cases hc : v = 3 * S + 2
+    · have a1 : ¬ v < 2 * S + 2 := by omega
+      have a2 : ¬ v < 3 * S + 2 := by omega
+      have e : v - (2 * S + 2) = S := by omega
+      rw [e]
+      have a3 : ¬ (3 * S + 2 < 2 * S + 2) := by omega
+      subst hc
+      simp [cylinderPos, a3, circlePos, V3.New, V3.Add]
+    · have a1 : ¬ v < 2 * S + 2 := by omega
+      have a2 : v < 3 * S + 2 := by omega
+      have e : ¬ (v - (2 * S + 2) = S) := by omega
+      simp [cylinderPos, a1, a2, circlePos, e, V3.New, V3.Add]
+  · -- bottom cap: circle rotated by π about X, translated by (0, -H/2, 0)
+    have a1 : ¬ v < 2 * S + 2 := by omega
     have a2 : ¬ v < 3 * S + 2 := by omega
     have a3 : ¬ v = 3 * S + 2 := by omega
-    simp [cylinderPos, a1, a2, a3, h2, bottomCapQ, rotX', V3.New, V3.Add]
-  · have a1 : ¬ v < 2 * S + 2 := by omega
-    have a2 : ¬ v < 3 * S + 2 := by omega
-    have a3 : ¬ v = 3 * S + 2 := by omega
-    simp [cylinderPos, a1, a2, a3, h2, bottomCapQ, rotX', V3.New, V3.Add, V3.Zero]
+    by_cases hc : v < 4 * S + 3
+    · have e : ¬ (v - (3 * S + 3) = S) := by omega
+      simp [cylinderPos, a1, a2, a3, hc, circlePos, e, bottomCapQ, rotX', V3.New, V3.Add]
+    · have e : v - (3 * S + 3) = S := by omega
+      rw [e]
+      simp [cylinderPos, a1, a2, a3, hc, circlePos, bottomCapQ, rotX', V3.New, V3.Add]
 
 theorem cylinderNormalCode_eq (S v : Nat) : (cylinderNormalCode S v : V3 ℝ) = cylinderNormal S v := by
   unfold cylinderNormalCode
-  split_ifs with h1
+  split_ifs with h1 h2
   · rfl
   · have a1 : ¬ v < 2 * S + 2 := by omega
-    simp [cylinderNormal, a1, h1, bottomCapQ, rotX', V3.New]
+    simp [cylinderNormal, a1, h2, circleNormal, V3.New]
+  · have a1 : ¬ v < 2 * S + 2 := by omega
+    simp [cylinderNormal, a1, h2, circleNormal, bottomCapQ, rotX', V3.New]
 
 
 /-! ### congruence: the predicates only look at the vertices the triangles use -/
@@ -144,8 +163,18 @@ theorem cubeQuads_nrm_agree : ∀ t ∈ cubeQuadsTris,
   let ⟨a, b, c⟩ := cubeQuadsTris_lt t ht
   ⟨cubeQuadsNormalCode_eq a, cubeQuadsNormalCode_eq b, cubeQuadsNormalCode_eq c⟩
 
-theorem cylinderPosCode_funext (r H : ℝ) (S : Nat) : cylinderPosCode r H S = cylinderPos r H S :=
-  funext fun v => cylinderPosCode_eq r H S v
+theorem cylinderTris_lt {S : Nat} (hS : 1 ≤ S) : ∀ t ∈ cylinderTris S false false,
+    t.1 < cylinderNV S false false ∧ t.2.1 < cylinderNV S false false ∧ t.2.2 < cylinderNV S false false := by
+  intro t ht
+  simp only [cylinderNV, cylinderSideNV, circleNV, Bool.false_eq_true, if_false]
+  rcases mem_cylinderTris.1 ht with ⟨i, hi, rfl | rfl⟩ | (⟨i, hi, rfl⟩ | rfl) | (⟨i, hi, rfl⟩ | rfl) <;>
+    simp only [cylinderSideNV, circleNV] <;> omega
+
+theorem cylinder_pos_agree (r H : ℝ) {S : Nat} (hS : 1 ≤ S) : ∀ t ∈ cylinderTris S false false,
+    cylinderPosCode r H S t.1 = cylinderPos r H S t.1 ∧ cylinderPosCode r H S t.2.1 = cylinderPos r H S t.2.1 ∧
+      cylinderPosCode r H S t.2.2 = cylinderPos r H S t.2.2 := fun t ht =>
+  let ⟨a, b, c⟩ := cylinderTris_lt hS t ht
+  ⟨cylinderPosCode_eq r H S a, cylinderPosCode_eq r H S b, cylinderPosCode_eq r H S c⟩
 
 theorem cylinderNormalCode_funext (S : Nat) : (cylinderNormalCode S : Nat → V3 ℝ) = cylinderNormal S :=
   funext fun v => cylinderNormalCode_eq S v
